@@ -395,6 +395,11 @@ struct event_base {
 
 	/** "Prepare" and "check" watchers. */
 	struct evwatch_list watchers[EVWATCH_MAX];
+	/** The watcher whose callback is running (NULL if it freed itself), and
+	 * in that case the watcher to continue with. Lets watcher callbacks
+	 * call evwatch_free() on any watcher, including their own. */
+	struct evwatch *watcher_running;
+	struct evwatch *watcher_next;
 };
 
 struct event_config_entry {
